@@ -8,7 +8,7 @@ import hashlib
 import json
 
 from . import fp as F
-from .ops import SIM_CALLABLES, Codec, Interrupter, SkipOp, call_op
+from .ops import PEER, Codec, Interrupter, SkipOp, call_op
 
 
 class StopRun(Exception):
@@ -101,6 +101,8 @@ class Sim:
         for m in self.monitors:
             m.before(self, op)
         self.peer_fired = False
+        PEER["sim"] = self
+        PEER["armed"] = op.get("peer")  # F2: the n-th peer invocation inside this call raises
         try:
             if op.get("intr"):
                 val = self.interrupter.run(op["intr"], thunk)
@@ -113,6 +115,7 @@ class Sim:
             out = ("intr", None)
         except Exception as e:  # the library's answer, whatever it is
             out = ("exc", e)
+        PEER["armed"] = None
         if op.get("intr"):
             if self.interrupter.fired:
                 self.fired("F7.interrupt")
@@ -167,6 +170,7 @@ class Sim:
             "tainted": sorted(self.tainted),
             "digest": digest([self.ops, self.log, [v["oracle"] for v in self.violations]]),
             "cfg": self.cfg,
+            "states": [self.user["state"]] if "state" in self.user else [],
         }
 
 
